@@ -234,13 +234,24 @@ func c13sizeWeight(r *core.Recorder, backend string, shards int, id string) {
 		}
 	}
 	// tiny first (older), big second (more recent by a few ms), then filler to cross the limit
+	t0 := time.Now()
 	put(0, rig.Body(0, 1, 100))
 	put(1, big)
 	put(2, rig.Body(2, 1, 1<<19)) // 0.5 MiB -> total just over 3 MiB
+	gap := time.Since(t0)
 	c.VerifRunCleanupCycle()
 	bigGone, tinyGone := !c13present(c, c13key(id, 1)), !c13present(c, c13key(id, 0))
 	r.Nontrivial("sizeweight", backend, shards)
+	if gap > 150*time.Millisecond {
+		r.NotJudged("size-weight-accesses-too-far-apart") // the 2.5 MiB entry's weight equals 200 ms of age
+		return
+	}
 	r.Count("size_weight_checks", 1)
+	if tinyGone {
+		// evicting the 2.5 MiB entry alone reaches the target; with the size weight it ranks first
+		r.Violation("C13", "C13:size-weight-ignored:"+backend, "a 100-byte entry was evicted although the 2.5 MiB entry stored a few milliseconds after it ranks first by size weight and its eviction alone reaches the target", map[string]any{"id": id, "backend": backend}, map[string]any{"big_gone": bigGone, "tiny_gone": tinyGone, "gap": gap.String()})
+		return
+	}
 	if !bigGone && tinyGone {
 		r.Violation("C13", "C13:size-weight-ignored:"+backend, "a 100-byte entry was evicted before a 2.5 MiB entry accessed within a few milliseconds of it", map[string]any{"id": id, "backend": backend}, map[string]any{"big_gone": bigGone, "tiny_gone": tinyGone})
 	}
@@ -252,6 +263,7 @@ func c13sizeWeight(r *core.Recorder, backend string, shards int, id string) {
 // c13expiry: a cycle removes exactly the expired entries; a fresh overwrite landing between the scan and
 // the removal must survive.
 func c13expiry(r *core.Recorder, backend string, shards, n int, id string, toctou bool, hookMu *sync.Mutex, hooks map[string]func()) {
+	renew := toctou && n%2 == 0 // alternate: a fresh overwrite / an in-place renewal (what a 304 does) lands after the scan
 	r.Eval(1)
 	ctx, cancel := context.WithCancel(context.Background())
 	defer cancel()
@@ -278,6 +290,11 @@ func c13expiry(r *core.Recorder, backend string, shards, n int, id string, tocto
 		if victim >= 0 {
 			hookMu.Lock()
 			hooks["scan"] = func() {
+				if renew {
+					// the expired entry is revalidated in place after the scan collected it
+					c.UpdateMetadata(c13key(id, victim), func(m *cache.EntryMetadata[rig.Obj]) { m.Expires = future })
+					return
+				}
 				// a fresh version of an expired key lands after the scan collected it
 				if e, err := c.Cache(c13key(id, victim), strings.NewReader(string(rig.Body(victim, 2, 64))), future, rig.Obj{K: victim, V: 2}); err == nil {
 					e.Data.Close()
@@ -299,6 +316,13 @@ func c13expiry(r *core.Recorder, backend string, shards, n int, id string, tocto
 		present := c13present(c, c13key(id, i))
 		switch {
 		case i == victim:
+			if !present && renew {
+				r.Violation("C13", "C13:renewed-entry-removed-after-scan:"+backend, "an expired entry was renewed in place (expiry moved an hour ahead, as a 304 does) after the cleanup scan had collected it; the cycle then removed the no longer expired entry", cs, map[string]any{"key": i})
+				return
+			}
+			if renew {
+				continue
+			}
 			if !present {
 				r.Violation("C13", "C13:fresh-removed-after-scan:"+backend, "an expired key was overwritten with a fresh body after the cleanup scan had collected it; the cycle then removed the fresh entry", cs, map[string]any{"key": i})
 				return
